@@ -198,6 +198,7 @@ def classifyBegin (r : Cells) (name : Str) (c : Str) : Cls :=
   | some ct =>
     if (match get r "control::appearance" with
         | some a => (splitOnChar ' ' a).contains "table-list".toList | none => false) then .unsupported "table-list"
+    else if has r "control::bodyless" then .unsupported "bodyless"   -- `GroupedSection.xml_control` returns None
     else .row (.begin_ ct name (hasBindCells r) (countHelper name r))
 
 /-- a select row (xls2json.py 962-1189) -/
@@ -281,11 +282,16 @@ def classifyAll (lists : List Str) : Nat → List Cells → Except String (List 
       | .ok ks => .ok ((n, k) :: ks)
       | .error w => .error w
 
-/-- meta block children: audit rows, `instanceID` (unless omitted), `instanceName` -/
+/-- an `audit` row that is not disabled (xls2json.py 596-760: renamed `audit`, moved to the meta block) -/
+def isAuditRow (r : Cells) : Bool :=
+  get r "type" = some "audit".toList && !(match get r "disabled" with | some v => yesNoTrue v | none => false)
+
+def auditQ : QData := { name := "audit".toList, bind := true, control := false, node := true }
+
+/-- meta block children: one `audit` per audit row (in sheet order — two of them clash in `Section.validate` of the
+    meta group), `instanceID` (unless omitted), `instanceName` -/
 def metaKids (rows : List Cells) (settings : Cells) : List QData :=
-  let audit := if rows.any (fun r => get r "type" = some "audit".toList &&
-      !(match get r "disabled" with | some v => yesNoTrue v | none => false)) then
-    [({ name := "audit".toList, bind := true, control := false, node := true } : QData)] else []
+  let audit := (rows.filter isAuditRow).map fun _ => auditQ
   let iid := if (match get settings "omit_instanceID" with | some v => yesNoTrue v | none => false) then []
     else [({ name := "instanceID".toList, bind := true, control := false, node := true } : QData)]
   let iname := if has settings "instance_name" then
@@ -352,6 +358,13 @@ def formOut (root : Str) (lists : List Str) (rows : List Cells) (settings : Cell
           | none =>
           .ok { items := items, inst := instanceOf root all, binds := bindPathsL [root] all,
                 body := bodyPathsL [root] items, ctl := bodyCtlL [root] items }
+
+/-- a `save_to` row is, for the element tree, the question of its type with one more bind attribute
+    (`bind::entities:saveto`): the cell is renamed so that `classify` reads the row as a plain question with a
+    bind.  Whether the cell is *allowed* (entity declaration present, not inside a repeat, not on a group, valid
+    property name: `validate_entity_saveto`) is decided by `Pyxv.Entities.walk`. -/
+def plainSaveto (r : Cells) : Cells :=
+  r.map fun kv => if kv.1 = "bind::entities:saveto".toList then ("bind::saveto".toList, kv.2) else kv
 
 /-! ### the same pipeline on explicitly numbered rows
 
